@@ -86,9 +86,18 @@ def gen_cases(rng, tier):
         feats = gen_annotation(rng, tkey, gkey, sub)
         if not feats:
             continue
-        cases.append({"feats": feats, "tkey": tkey, "gkey": gkey, "sub": sub, "no_genes": (i // 2) % 2 == 1,
-                      "no_transcripts": i % 2 == 1, "strategy": "error" if rng.random() < 0.8 else "create_unique",
-                      "text": rng.random() < 0.4})
+        c = {"feats": feats, "tkey": tkey, "gkey": gkey, "sub": sub, "no_genes": (i // 2) % 2 == 1,
+             "no_transcripts": i % 2 == 1,
+             "strategy": rng.choice(["error", "error", "error", "create_unique", "replace", "merge", "warning"]),
+             "text": rng.random() < 0.4}
+        if i % 5 == 4:
+            # subfeature lines keyed on an attribute of their own (exon_id), the same value on several lines (an exon shared
+            # by transcripts): with create_unique the later ones become <id>_1, <id>_2 and their relations follow them
+            c["exon_key"] = "exon_id"
+            c["strategy"] = rng.choice(["create_unique", "create_unique", "merge", "error"])
+            c["feats"] = [dict(f, attrs=f["attrs"] + [["exon_id", ["E%d" % rng.randrange(3)]]]) if f["type"] == sub and rng.random() < 0.8 else f
+                          for f in feats]
+        cases.append(c)
     return cases
 
 
@@ -129,8 +138,10 @@ def shrinks(c):
 def run_impl(c):
     kw = dict(gtf_transcript_key=c["tkey"], gtf_gene_key=c["gkey"], gtf_subfeature=c["sub"],
               disable_infer_genes=c["no_genes"], disable_infer_transcripts=c["no_transcripts"], merge_strategy=c["strategy"])
-    if (c["tkey"], c["gkey"]) != ("transcript_id", "gene_id"):
+    if (c["tkey"], c["gkey"]) != ("transcript_id", "gene_id") or c.get("exon_key"):
         kw["id_spec"] = {"gene": c["gkey"], "transcript": c["tkey"]}
+        if c.get("exon_key"):
+            kw["id_spec"][c["sub"]] = c["exon_key"]
     st, db = imp.run_create(c["feats"], fmt="gtf", text=c.get("text", False), **kw)
     if st == "err":
         return {"tables": ["err", db]}
@@ -142,8 +153,9 @@ def run_impl(c):
 
 def coq_case(c, o):
     g = "(mkGtf %s %s %s %s %s)" % (L.s(c["tkey"]), L.s(c["gkey"]), L.s(c["sub"]), L.b(c["no_genes"]), L.b(c["no_transcripts"]))
-    return "Case %s %s %s %s" % (g, imp.STRAT[c["strategy"]], L.lst([imp.coq_row(f) for f in c["feats"]], "row"),
-                                 imp.res_tables(o["tables"]))
+    extra = "[(%s, [KAttr %s])]" % (L.s(c["sub"]), L.s(c["exon_key"])) if c.get("exon_key") else "(@nil (str * list idkey))"
+    return "Case %s %s %s %s %s" % (g, imp.STRAT[c["strategy"]], extra, L.lst([imp.coq_row(f) for f in c["feats"]], "row"),
+                                    imp.res_tables(o["tables"]))
 
 
 def labels(c, o):
@@ -151,6 +163,9 @@ def labels(c, o):
     yield "keys=" + ("standard" if c["tkey"] == "transcript_id" else "custom")
     yield "sub=" + c["sub"]
     yield "input=" + ("text" if c.get("text") else "features")
+    yield "strategy=" + c["strategy"]
+    if c.get("exon_key"):
+        yield "subfeatures-keyed-on-exon_id"
     if any(f["type"] in ("gene", "transcript") for f in c["feats"]):
         yield "has-explicit-gene-or-transcript-line"
     if any(f["type"] not in ("gene", "transcript") and not any(k == c["tkey"] for k, _ in f["attrs"]) for f in c["feats"]):
